@@ -494,8 +494,25 @@ class Judge:
         if chain is None:
             return
         name = op['name'] if 'name' in op else op['task']
+        if o.get('crash'):
+            # the process died inside Task.force: with delete_data the stored result is gone or still there - never partly there
+            self.stats['crashes'] += 1
+            it = chain['insts'][name]
+            if op.get('delete') and it.kind not in PERSIST_NONE:
+                loc = self.loc(chain, it)
+                if loc.state != 'absent':
+                    loc.state = 'indoubt'
+                loc.tainted = True
+                loc.faulted = True
+                loc.stage_exact = False
+                loc.last_run = {'valid': False}
+            return
         if 'err' in (o.get('res') or {}):
-            self.disc('C07', 'I-force', op['i'], 'Task.force raised', err=o['res']['err'], task=name, delete=op.get('delete'))
+            if any(f[0] == 'diskerr' for f in o.get('fired', [])) and o['res']['err'][0] in ('OSError', 'PermissionError', 'FileNotFoundError', 'IsADirectoryError', 'NotADirectoryError'):
+                # an injected file-system error while the stored result was being deleted: force reports it; what is left is unknown
+                self.stats['force_delete_diskerr'] = self.stats.get('force_delete_diskerr', 0) + 1
+            else:
+                self.disc('C07', 'I-force', op['i'], 'Task.force raised', err=o['res']['err'], task=name, delete=op.get('delete'))
             self._force_failed(chain, [name])
             return
         if o['inv']:
